@@ -13,7 +13,7 @@ import AbtemVerif.Model.Blockwise
 namespace AbtemVerif.Props.C01
 open AbtemVerif.Multislice AbtemVerif.ExitPlanes AbtemVerif.Gen.ExitPlanes AbtemVerif.Blockwise AbtemVerif.Partition
 open AbtemVerif.Gen.Blockwise
-variable {W S M T A R : Type}
+variable {W S M T A R α β : Type}
 
 /-! ### generic blockwise evaluation -/
 
@@ -238,6 +238,105 @@ theorem lazy_indep_of_max_batch (step : W → S → W) (detect : W → M) (cA cA
     lazyEntry_eq step detect cA' ws p ent ps hp hn hs hb hne hcover' c hc e he]
 
 
+/-! ### wave batches with two ensemble axes (grid scans) -/
+
+theorem getD_splitBy_range_flatten (f : α → β) (cY : List Nat) (row : List α) (h : row.length ≤ cY.sum) :
+    ((List.range cY.length).flatMap fun j => ((splitBy cY row).getD j []).map f) = row.map f := by
+  have hlen : (splitBy cY row).length = cY.length := length_splitBy cY row
+  have : ((List.range cY.length).map fun j => (splitBy cY row).getD j []) = splitBy cY row := by
+    apply List.ext_getElem (by simp [hlen])
+    intro i h1 h2
+    simp only [List.getElem_map, List.getElem_range]
+    rw [List.getD_eq_getElem?_getD, List.getElem?_eq_getElem h2]; rfl
+  calc ((List.range cY.length).flatMap fun j => ((splitBy cY row).getD j []).map f)
+      = (((List.range cY.length).map fun j => (splitBy cY row).getD j []).map (List.map f)).flatten := by
+        rw [List.flatMap_def, List.map_map]; rfl
+    _ = row.map f := by rw [this, flatten_map_splitBy f cY row h]
+
+/-- assembling the column blocks of a block of rows gives back the member-wise image of the rows -/
+theorem hcat_colBlocks (f : α → β) (cY : List Nat) (rb : List (List α)) (h : ∀ row ∈ rb, row.length ≤ cY.sum) :
+    hcat rb.length ((colBlocks cY rb).map fun cb => cb.map (List.map f)) = rb.map (List.map f) := by
+  unfold hcat colBlocks
+  apply List.ext_getElem (by simp)
+  intro i h1 h2
+  have hi : i < rb.length := by simpa using h1
+  simp only [List.getElem_map, List.getElem_range, List.flatMap_map, List.map_map]
+  have : ∀ j : Nat, ((rb.map fun row => (splitBy cY row).getD j []).map (List.map f)).getD i []
+      = ((splitBy cY rb[i]).getD j []).map f := by
+    intro j
+    rw [List.getD_eq_getElem?_getD, List.getElem?_map, List.getElem?_map, List.getElem?_eq_getElem hi]; rfl
+  simp only [Function.comp_def, this]
+  exact getD_splitBy_range_flatten f cY rb[i] (h _ (List.getElem_mem hi))
+
+/-- **2-d blockwise = whole**: for every member-wise `f`, every matrix and all chunkings covering rows and columns -/
+theorem blockMap2_eq (f : α → β) (cX cY : List Nat) (m : List (List α)) (hX : m.length ≤ cX.sum)
+    (hY : ∀ row ∈ m, row.length ≤ cY.sum) : blockMap2 f cX cY m = m.map (List.map f) := by
+  unfold blockMap2
+  have hmem : ∀ rb ∈ splitBy cX m, ∀ row ∈ rb, row ∈ m := by
+    intro rb hrb row hrow
+    have : row ∈ (splitBy cX m).flatten := List.mem_flatten.mpr ⟨rb, hrb, hrow⟩
+    rwa [flatten_splitBy cX m hX] at this
+  have : ∀ rb ∈ splitBy cX m, hcat rb.length ((colBlocks cY rb).map fun cb => cb.map (List.map f)) = rb.map (List.map f) :=
+    fun rb hrb => hcat_colBlocks f cY rb (fun row hrow => hY row (hmem rb hrb row hrow))
+  rw [List.flatMap_def, List.map_congr_left this, flatten_map_splitBy _ cX m hX]
+
+
+/-- what both modes must produce for a two-axis batch -/
+def expectedEntry2 (step : W → S → W) (detect : W → M) (wss : List (List W)) (cfg : List S) (q : Int) : List (List M) :=
+  wss.map (List.map fun w => detect (planeWave step w cfg q))
+
+theorem block_entry2 (step : W → S → W) (detect : W → M) (cb : List (List W)) (p : Pot S) (ent : Bool) (ps : List Nat)
+    (slices : List S) (hp : p.planes = natPlanes ent ps) (hc : p.configs = [slices]) (hn : p.nslices = slices.length)
+    (hs : ps.Pairwise (· < ·)) (hb : ∀ q ∈ ps, q < slices.length) (hne : ent = true ∨ ps ≠ [])
+    (e : Nat) (he : e < startIndex ent + ps.length) :
+    getE (multisliceAndDetect (stepBB step) (detectBB detect) cb p) (measurementIndex p 0 e)
+      = some (cb.map (List.map fun w => detect (planeWave step w slices (planeAt ent ps e)))) := by
+  have h1 : stepBB step = stepB (stepB step) := rfl
+  have h2 : detectBB detect = detectB (detectB detect) := rfl
+  rw [h1, h2, single_entry (stepB (stepB step)) (detectB (detectB detect)) cb p ent ps slices hp hc hn hs hb hne e he,
+    planeWave_stepB]
+  simp only [detectB, List.map_map, Function.comp_def, planeWave_stepB]
+
+theorem eagerEntry2_eq (step : W → S → W) (detect : W → M) (wss : List (List W)) (p : Pot S) (ent : Bool) (ps : List Nat)
+    (hp : p.planes = natPlanes ent ps) (hn : ∀ cfg ∈ p.configs, cfg.length = p.nslices)
+    (hshape : p.configs.length = 1 ∨ p.ensAxis = true)
+    (hs : ps.Pairwise (· < ·)) (hb : ∀ q ∈ ps, q < p.nslices) (hne : ent = true ∨ ps ≠ [])
+    (c : Nat) (hc : c < p.configs.length) (e : Nat) (he : e < startIndex ent + ps.length) :
+    eagerEntry2 step detect wss p c e = some (expectedEntry2 step detect wss p.configs[c] (planeAt ent ps e)) := by
+  have h := eagerEntry_eq (stepB step) (detectB detect) wss p ent ps hp hn hshape hs hb hne c hc e he
+  unfold eagerEntry at h
+  unfold eagerEntry2
+  rw [show stepBB step = stepB (stepB step) from rfl, show detectBB detect = detectB (detectB detect) from rfl, h]
+  simp only [expectedEntry, expectedEntry2, detectB, planeWave_stepB, List.map_map, Function.comp_def]
+
+/-- **lazy = eager for batches with two ensemble axes** (grid scans): every chunking of both batch axes, every number of
+configurations, every exit-plane tuple of the documented form, every entry. -/
+theorem lazy_eq_eager2 (step : W → S → W) (detect : W → M) (cX cY : List Nat) (wss : List (List W)) (p : Pot S)
+    (ent : Bool) (ps : List Nat) (hp : p.planes = natPlanes ent ps) (hn : ∀ cfg ∈ p.configs, cfg.length = p.nslices)
+    (hshape : p.configs.length = 1 ∨ p.ensAxis = true)
+    (hs : ps.Pairwise (· < ·)) (hb : ∀ q ∈ ps, q < p.nslices) (hne : ent = true ∨ ps ≠ [])
+    (hX : wss.length ≤ cX.sum) (hY : ∀ row ∈ wss, row.length ≤ cY.sum)
+    (c : Nat) (hc : c < p.configs.length) (e : Nat) (he : e < startIndex ent + ps.length) :
+    lazyEntry2 step detect cX cY wss p c e = eagerEntry2 step detect wss p c e := by
+  rw [eagerEntry2_eq step detect wss p ent ps hp hn hshape hs hb hne c hc e he]
+  unfold lazyEntry2
+  have hget : p.configs.getD c [] = p.configs[c] := by
+    rw [List.getD_eq_getElem?_getD, List.getElem?_eq_getElem hc]; rfl
+  have hlen := hn _ (List.getElem_mem hc)
+  simp only [hget]
+  have hblock : ∀ cb : List (List W),
+      getE (multisliceAndDetect (stepBB step) (detectBB detect) cb (blockPot p p.configs[c]))
+        (measurementIndex (blockPot p p.configs[c]) 0 e)
+      = some (cb.map (List.map fun w => detect (planeWave step w p.configs[c] (planeAt ent ps e)))) := fun cb =>
+    block_entry2 step detect cb (blockPot p p.configs[c]) ent ps p.configs[c] hp rfl (by simp [blockPot, hlen]) hs
+      (by rw [hlen]; exact hb) hne e he
+  simp only [hblock, mapM_some, Option.map_some]
+  have := blockMap2_eq (fun w => detect (planeWave step w p.configs[c] (planeAt ent ps e))) cX cY wss hX hY
+  unfold blockMap2 at this
+  rw [List.flatMap_def] at this
+  simp only [expectedEntry2]
+  rw [← this]
+
 /-! ### dimension bookkeeping of the lazy block function (DESIGN §7 F19) and default chunks -/
 
 /-- The packed block result of `ArrayObject._apply_transform` has exactly the number of dimensions that
@@ -262,6 +361,24 @@ theorem default_chunks (nens nplanes : Nat) :
     defaultChunks nens nplanes = (if 0 < nens then [1] else []) ++ (if 1 < nplanes then [nplanes] else []) := by
   unfold defaultChunks dHasEns dHasPlanes
   congr 1 <;> simp
+
+/-- **All places that decide whether the result has an exit-plane (thickness) axis agree**, for every number of exit
+planes: the allocation in `multislice_and_detect` (`sPlaneAxis`), `MultisliceTransform.ensemble_shape`,
+`.ensemble_axes_metadata`, `._out_ensemble_axes_metadata`, `._default_ensemble_chunks`, and the two tests of
+`._partition_args` (all regenerated from the source) — so the declared ensemble shape, the declared axes metadata, the chunk
+tuple, the partitioned argument and the array actually produced have the same number of ensemble axes; and the measurement
+index drops the exit index exactly when there is no such axis. -/
+theorem plane_axis_tests_agree (n : Int) :
+    tShapePlanes n = sPlaneAxis n ∧ tAxesPlanes n = sPlaneAxis n ∧ tOutAxesPlanes n = sPlaneAxis n ∧
+      dHasPlanes n = sPlaneAxis n ∧ tPartitionPlanes n = sPlaneAxis n ∧ tPartitionNewAxis n = sPlaneAxis n := by
+  simp [tShapePlanes, tAxesPlanes, tOutAxesPlanes, dHasPlanes, tPartitionPlanes, tPartitionNewAxis, sPlaneAxis]
+
+theorem single_plane_iff_no_plane_axis (n : Int) (hn : 1 ≤ n) : iSinglePlane n = !sPlaneAxis n := by
+  simp only [iSinglePlane, sPlaneAxis]
+  by_cases h : n = 1
+  · subst h; simp
+  · have : n > 1 := by omega
+    simp [h, this]
 
 /-! ### non-vacuity -/
 example : lazyEntry hstep hdetect [1, 2] [[100], [101], [102]] ⟨true, natPlanes true [1], 2, [[1, 2], [3, 4]]⟩ 1 1
